@@ -128,7 +128,8 @@ def _sample(ctx, path, n=8):
 
 
 def _pick(files, key):
-    hit = [p for p in files if key in os.path.basename(p)]
+    """first trace file (in name order, i.e. the first one the harness wrote) of a family"""
+    hit = sorted(p for p in files if key in os.path.basename(p))
     return hit[0] if hit else None
 
 
